@@ -231,6 +231,16 @@ pub fn attacks(
         out.push(base("kb replayed", format!("honest KB-JWT, disclosure {} removed", pos), Parts { disclosures: d, ..parts.clone() }));
         out.push(base("kb replayed", "honest KB-JWT, all disclosures removed".into(), Parts { disclosures: vec![], ..parts.clone() }));
     }
+    if !parts.disclosures.is_empty() {
+        // an exact copy of a disclosure that is already presented
+        let i = ch.pick(parts.disclosures.len());
+        let mut d = parts.disclosures.clone();
+        d.push(parts.disclosures[i].clone());
+        out.push(base("kb replayed", format!("honest KB-JWT, disclosure {} appended a second time", i), Parts { disclosures: d, ..parts.clone() }));
+        let mut d = parts.disclosures.clone();
+        d.insert(i, parts.disclosures[i].clone());
+        out.push(base("kb replayed", format!("honest KB-JWT, disclosure {} duplicated in place", i), Parts { disclosures: d, ..parts.clone() }));
+    }
     if parts.disclosures.len() >= 2 {
         let mut d = parts.disclosures.clone();
         d.reverse();
